@@ -113,7 +113,7 @@ func NewClient[Req, Res any](httpClient HTTPClient, url string, options ...Clien
 // CallUnary calls a request-response procedure.
 func (c *Client[Req, Res]) CallUnary(ctx context.Context, request *Request[Req]) (*Response[Res], error) {
 	if c.err != nil {
-		return nil, c.err
+		return nil, c.callErr()
 	}
 	return c.callUnary(ctx, request)
 }
@@ -121,7 +121,7 @@ func (c *Client[Req, Res]) CallUnary(ctx context.Context, request *Request[Req])
 // CallClientStream calls a client streaming procedure.
 func (c *Client[Req, Res]) CallClientStream(ctx context.Context) *ClientStreamForClient[Req, Res] {
 	if c.err != nil {
-		return &ClientStreamForClient[Req, Res]{err: c.err}
+		return &ClientStreamForClient[Req, Res]{err: c.callErr()}
 	}
 	return &ClientStreamForClient[Req, Res]{conn: c.newConn(ctx, StreamTypeClient)}
 }
@@ -129,7 +129,7 @@ func (c *Client[Req, Res]) CallClientStream(ctx context.Context) *ClientStreamFo
 // CallServerStream calls a server streaming procedure.
 func (c *Client[Req, Res]) CallServerStream(ctx context.Context, request *Request[Req]) (*ServerStreamForClient[Res], error) {
 	if c.err != nil {
-		return nil, c.err
+		return nil, c.callErr()
 	}
 	conn := c.newConn(ctx, StreamTypeServer)
 	mergeHeaders(conn.RequestHeader(), request.header)
@@ -150,9 +150,25 @@ func (c *Client[Req, Res]) CallServerStream(ctx context.Context, request *Reques
 // CallBidiStream calls a bidirectional streaming procedure.
 func (c *Client[Req, Res]) CallBidiStream(ctx context.Context) *BidiStreamForClient[Req, Res] {
 	if c.err != nil {
-		return &BidiStreamForClient[Req, Res]{err: c.err}
+		return &BidiStreamForClient[Req, Res]{err: c.callErr()}
 	}
 	return &BidiStreamForClient[Req, Res]{conn: c.newConn(ctx, StreamTypeBidi)}
+}
+
+// callErr returns the error that made NewClient fail, for one call: a fresh
+// *Error each time. Callers may annotate the errors they are handed, and
+// every call of a misconfigured client would otherwise get the same object.
+func (c *Client[Req, Res]) callErr() error {
+	connectErr, ok := asError(c.err)
+	if !ok {
+		return c.err
+	}
+	return &Error{
+		code:    connectErr.code,
+		err:     connectErr.err,
+		details: append([]ErrorDetail(nil), connectErr.details...),
+		meta:    connectErr.meta.Clone(),
+	}
 }
 
 func (c *Client[Req, Res]) newConn(ctx context.Context, streamType StreamType) StreamingClientConn {
